@@ -368,11 +368,11 @@ def gen_case(rng, stratum, pairing, tier='quick', delays=None, adversary=None, u
         'adversary': adversary, 'permute': None,
     }
     if unit is not None:
-        rescale_units(case, unit)
+        rescale_units(case, unit, offgrid=rng)
     return case
 
 
-def rescale_units(case, unit):
+def rescale_units(case, unit, offgrid=None):
     """Express the plan in a coarser unit with integers only: times (seconds)
     become multiples of the unit; per-second rates/speeds stay the generated
     integers, so per-step rates are m times larger - work, volumes and
@@ -384,6 +384,8 @@ def rescale_units(case, unit):
         return
     for o in case['observations']:
         o['start'] *= m
+        if offgrid is not None and offgrid.random() < 0.3:
+            o['start'] += max(1, m // 2)        # a planned start between two timestep boundaries
         o['duration'] *= m
         wf = o['workflow']
         for nd in wf['nodes']:
